@@ -425,6 +425,7 @@ func runC08(c *vk.Ctx) {
 		cfg.First = a.Funcs["_first"] != nil
 		cfg.ResetOnEmptyInput = r.Chance(1, 4)
 		cfg.PersisterContent = i%5 == 4
+		cfg.FuncUsesStore = i%6 == 5 // the functions keep user data in the store handle that holds the session
 		c.Begin(key)
 		if cfg.PersisterContent {
 			c.Count("explorations_with_client_created_state_and_cache", 1)
